@@ -36,6 +36,10 @@ def specs(tier, volume=1):
                 out.append(("qubit", "random_over", "mixed", kind, flag, 2))
                 if kind == "qst" or not quick:
                     out.append(("qutrit", "typical", "mixed", kind, flag, 2))
+            if kind == "qst":          # composite systems whose subsystems have different dimensions
+                out.append(("qubit_qutrit", "random", "random_over", kind, flag, 2))
+                if not quick or flag:
+                    out.append(("qutrit_qubit", "random", "random_over", kind, flag, 2))
             two = [("typical", "typical")] if quick else [("typical", "typical"), ("random_over", "random_over"),
                                                             ("typical_over", "random_over")]
             for sh, ph in two:
